@@ -308,6 +308,30 @@ pub(crate) fn take_scripted_handler() -> Option<HandlerChannels> {
     SCRIPTED_HANDLER.with(|s| s.borrow_mut().take())
 }
 
+thread_local! {
+    static SCRIPTED_HANDLER_CONFIG: RefCell<Option<HandlerTimings>> = const { RefCell::new(None) };
+}
+
+/// What a scripted handler was configured with: (session timeout, session cache capacity,
+/// request timeout, request retries).
+pub type HandlerTimings = (Duration, usize, Duration, u8);
+
+pub(crate) fn record_scripted_handler_config(config: &crate::Config) {
+    SCRIPTED_HANDLER_CONFIG.with(|c| {
+        *c.borrow_mut() = Some((
+            config.session_timeout,
+            config.session_cache_capacity,
+            config.request_timeout,
+            config.request_retries,
+        ))
+    });
+}
+
+/// The configuration the most recent scripted `Handler::spawn` of this thread was called with.
+pub fn scripted_handler_config() -> Option<HandlerTimings> {
+    SCRIPTED_HANDLER_CONFIG.with(|c| *c.borrow())
+}
+
 /// While on, every handler of this thread publishes a snapshot at the top of its event loop.
 pub fn arm_snapshots(on: bool) {
     SNAPSHOTS_ON.with(|c| c.set(on));
